@@ -496,24 +496,32 @@ def _tlc(ctx, module, cfg, label, expect_ok=True, **kw):
         ctx.states += r.distinct
         ctx.transitions += r.generated
         ctx.tlc_runs.append(dict(r.as_dict(), module=module, cfg=cfg, label=label, violated=r.violated))
+        for a, (d, t) in r.coverage.items():
+            od, ot = ctx.actions.get(a, (0, 0))
+            ctx.actions[a] = (od + d, ot + t)
     if expect_ok and r.violated:
         raise tlc.TLCFailure("model %s/%s violates %s" % (module, cfg, r.violated))
     return r
 
 
-def _trace_validate(ctx, records, label, batch=4000, cfg="Trace_HedText.cfg"):
-    """records: list of trace records; returns list of (balanced, [failed clauses]) in the same order."""
+def _trace_validate(ctx, records, label, batch=2500, cfg="Trace_HedText.cfg"):
+    """records: list of trace records; returns the TLC verdict of each, in the same order
+    ((balanced, [failed clauses]) for Trace_HedText.cfg)."""
     verdicts = [None] * len(records)
-    for b0 in range(0, len(records), batch):
+
+    def one(b0):
         part = records[b0:b0 + batch]
         path = os.path.join(ctx.work, "trace_%s_%d.json" % (re.sub(r"\W", "_", label), b0))
         with open(path, "w") as f:
             json.dump(part, f)
-        r = ctx.tlc("Trace_HedText", cfg, workers=1, env={"TRACE_FILE": path},
-                    label="trace validation: %s (%d cases)" % (label, len(part)), timeout=900)
-        for line in r.json_lines:
-            verdicts[b0 + line[0] - 1] = tuple(line[1:])
+        r = _tlc(ctx, "Trace_HedText", cfg, "trace validation: %s (%d cases)" % (label, len(part)), workers=1,
+                 env={"TRACE_FILE": path}, timeout=900, heap="2g")
         os.remove(path)
+        return b0, r.json_lines
+    with ThreadPoolExecutor(6) as ex:
+        for b0, lines in ex.map(one, range(0, len(records), batch)):
+            for line in lines:
+                verdicts[b0 + line[0] - 1] = tuple(line[1:])
     missing = [i for i, v in enumerate(verdicts) if v is None]
     if missing:
         raise tlc.TLCFailure("trace validation gave no verdict for %d cases (first index %d)" % (len(missing), missing[0]))
@@ -530,40 +538,55 @@ def run(ctx):
                 "(B) hypothesis Unicode texts abstracted to the class alphabet and judged by TLC. distinct = distinct "
                 "abstract text; non-trivial = contains a tag character or parenthesis AND a delimiter or blank "
                 "(span arithmetic / nesting is exercised)" % n)
-    # ---- 1. design run: algorithm == declarative definition, print/re-parse, for all texts <= n
-    ctx.tlc("MC_HedText", "MC_HedText.cfg" if quick else "MC_HedText_thorough.cfg", workers=16, coverage=True,
-            label="design: algorithm = declarative definition, all texts up to length %d" % n, timeout=2400,
-            heap="8g")
-    never = sorted(a for a, (d, t) in ctx.actions.items() if t == 0)
-    if never:
-        raise tlc.TLCFailure("vacuous model: actions never taken %s" % never)
-    # ---- 2. sensitivity: broken variants must be rejected by the invariants
-    sens_expect = {"notrim": {"TokenClasses", "AlgoMatchesDecl"}, "endpos": {"TreeMatchesDecl", "FlatMatchesDecl", "GroupSpans"},
-                   "noclosecheck": {"RejectIffUnbalanced", "UnbalancedEmpty", "TreeMatchesDecl"},
-                   "printsep": {"RoundTrip", "PrintStable"}}
 
-    def sens(b):
-        return b, _tlc(ctx, "MC_HedText", "MC_HedText_bug_%s.cfg" % b, "sensitivity: " + b, expect_ok=False,
-                       workers=1, timeout=300)
-    with ThreadPoolExecutor(4) as ex:
-        res = list(ex.map(sens, sorted(sens_expect)))
-    got = {}
-    for b, r in res:
-        got[b] = r.violated
-        if r.violated not in sens_expect[b]:
-            raise tlc.TLCFailure("sensitivity run %s should violate one of %s, got %s" % (b, sorted(sens_expect[b]), r.violated))
-    ctx.note("broken_variants_rejected_by_spec", got)
+    def model_runs():
+        # ---- 1. design run: algorithm == declarative definition, print/re-parse, for all texts <= n
+        _tlc(ctx, "MC_HedText", "MC_HedText.cfg" if quick else "MC_HedText_thorough.cfg",
+             "design: algorithm = declarative definition, all texts up to length %d" % n, workers=16, coverage=True,
+             timeout=2400, heap="8g", deadlock=True)
+        never = sorted(a for a, (d, t) in ctx.actions.items() if t == 0)
+        if never:
+            raise tlc.TLCFailure("vacuous model: actions never taken %s" % never)
+        # ---- 2. sensitivity: broken variants must be rejected by the invariants
+        sens_expect = {"notrim": {"TokenClasses", "AlgoMatchesDecl"}, "endpos": {"TreeMatchesDecl", "FlatMatchesDecl", "GroupSpans"},
+                       "noclosecheck": {"RejectIffUnbalanced", "UnbalancedEmpty", "TreeMatchesDecl"},
+                       "printsep": {"RoundTrip", "PrintStable"}}
 
-    # ---- 3. workers (fork after importing hed once)
-    import hed  # noqa: F401
+        def sens(b):
+            return b, _tlc(ctx, "MC_HedText", "MC_HedText_bug_%s.cfg" % b, "sensitivity: " + b, expect_ok=False,
+                           workers=1, timeout=300, deadlock=True)
+        with ThreadPoolExecutor(4) as ex:
+            res = list(ex.map(sens, sorted(sens_expect)))
+        got = {}
+        for b, r in res:
+            got[b] = r.violated
+            if r.violated not in sens_expect[b]:
+                raise tlc.TLCFailure("sensitivity run %s should violate one of %s, got %s" % (b, sorted(sens_expect[b]), r.violated))
+        try:        # a variant that cannot consume "," tokens must be reported as stuck (deadlock, TLC exit status 11)
+            _tlc(ctx, "MC_HedText", "MC_HedText_bug_stuck.cfg", "sensitivity: stuck", workers=1, timeout=300, deadlock=True)
+            raise tlc.TLCFailure("sensitivity run stuck: the deadlock was not detected")
+        except tlc.TLCFailure as ex:
+            if "rc=11" not in str(ex):
+                raise
+            got["stuck"] = "deadlock"
+        ctx.note("broken_variants_rejected_by_spec", got)
+
+    # the model runs (TLC only) go on in a thread while the generated cases are replayed into the real code
+    import hed  # noqa: F401  (before any thread/fork)
     _pool_init()
+    # ---- 3. workers (forked after importing hed once, and before any thread is started)
     mpctx = mp.get_context("fork")
     pool = mpctx.Pool(14)
+    bg = ThreadPoolExecutor(1)
+    fut = bg.submit(model_runs)
     try:
         _run_bindings(ctx, pool, n, plen)
+        fut.result()                      # design / sensitivity failures are machinery failures (TLCFailure)
     finally:
         pool.terminate()
         pool.join()
+        bg.shutdown(wait=True)
+    ctx.tlc_runs.sort(key=lambda r: (r["cfg"], r["label"]))
     ctx.assumptions += [
         "blank = U+0020 only (the class map of the property's alphabet); tab, NBSP and other Unicode white space are tag "
         "characters for the declarative definition, as for split_hed_string; the number of recorded texts on which the "
